@@ -8,12 +8,13 @@ Property theorems only. Model: `Pya.effective` (Core/Options.lean: `parse_config
 `get_value_from_instances`, `prepare_constructor_kwargs`). Spec: `Pya.specValue` /
 `Pya.specEffective` (Spec/ConfigSpec.lean, the precedence sentence of the property).
 
-The unchanged pyanalyze does not satisfy the full statement; the exception classes are
-`D18_lostPriority`, `D18_concatDefaultTwice`, `D18_pathListNoConcat` (values) and
-`D18_boolAsInt`, `D18_disableAllNotBool` (rejection), all decidable predicates on the input
-(Spec/ConfigSpec.lean). Each has a witness theorem below.
+The model follows the tree repaired by the fix commits 67f91cf (priority of extended files),
+7e56ba6 (boolean as integer), df9545b (non-boolean `disable_all`) and 4427783 (default appended
+twice); the four former exception classes are gone and their former witnesses are regression
+theorems below. One class remains, `D18_pathListNoConcat` (path-list options do not concatenate —
+a design choice of pyanalyze), with its witness.
 -/
-namespace Pya
+namespace Pya.C18
 
 /-! ## 1. Instance level (`sort_key`, `from_option_list`, `get_value_from_instances`): full strength -/
 
@@ -71,7 +72,7 @@ theorem valid_config_accepted (reg : Registry) (fs : FS) (fuel : Nat) (main : St
     (hstack : specStack fs fuel main [] = some stack)
     (hvalid : stack.all (specValidBody reg) = true) (hkeys : stack.all tableNodup = true) :
     ∃ insts, parseFile reg fs fuel main 0 [] = .ok insts := by
-  refine ⟨chainPure reg stack, parseFile_chain reg fs fuel main 0 [] stack hstack ?_ ?_⟩
+  refine ⟨chainPure reg 0 stack, parseFile_chain reg fs fuel main 0 [] stack hstack ?_ ?_⟩
   · intro b hb; exact (List.all_eq_true.1 hvalid) b hb
   · intro b hb
     have := (List.all_eq_true.1 hkeys) b hb
@@ -89,19 +90,20 @@ theorem disable_all_semantics (reg : Registry) (hreg : reg.wf = true) (d : OptDe
     (mod : List String) (kvs : Table) (hv : specValidOverride reg (.tbl kvs) = true)
     (hn : keysNodup kvs) :
     ∃ out, parseOverride reg ext prio (.tbl kvs) = .ok out ∧
-      (∀ i, overrideInst d mod (.tbl kvs) = some i →
+      (∀ i, overrideInst d mod prio (.tbl kvs) = some i →
         relevant d mod out ≠ [] ∧ ∀ x ∈ relevant d mod out, x = i) ∧
-      (overrideInst d mod (.tbl kvs) = none → relevant d mod out = []) := by
+      (overrideInst d mod prio (.tbl kvs) = none → relevant d mod out = []) := by
   have ok := regOK_of_wf hreg hd
-  refine ⟨overridePure reg (.tbl kvs), parseOverride_valid reg ext prio hv, ?_, ?_⟩
-  · exact (override_exact ok mod hv (fun kvs' he => by cases he; exact hn)).1
-  · exact (override_exact ok mod hv (fun kvs' he => by cases he; exact hn)).2.1
+  refine ⟨overridePure reg prio (.tbl kvs), parseOverride_valid reg ext prio hv, ?_, ?_⟩
+  · exact (override_exact ok mod prio hv (fun kvs' he => by cases he; exact hn)).1
+  · exact (override_exact ok mod prio hv (fun kvs' he => by cases he; exact hn)).2.1
 
 /-! ## 3. The precedence sentence, end to end -/
 
-/-- The full statement of the value part of C18 (not asserted: pyanalyze violates it, see the
-witnesses): for every registry, file system, command line, registered option and module path, if
-the configuration is valid then the effective value is the one the precedence sentence gives. -/
+/-- The full statement of the value part of C18 (not asserted: path-list options violate it, see
+`pathListNoConcat_witness`): for every registry, file system, command line, registered option and
+module path, if the configuration is valid then the effective value is the one the precedence
+sentence gives. -/
 def lookup_precedence_full : Prop :=
   ∀ (reg : Registry) (fs : FS) (main : String) (cli : List (String × Val)) (d : OptDecl)
     (mod : List String) (stack : List Table),
@@ -110,20 +112,22 @@ def lookup_precedence_full : Prop :=
     stack.all (specValidBody reg) = true → stack.all tableNodup = true →
     effective reg fs (fs.length + 1) main cli d mod = .ok (specValue d cli stack mod)
 
-/-- **C18 value part, partial (all stacks of any depth, all module paths, all command lines).**
-For a valid stack of chained configuration files, the value pyanalyze's model computes
-(`prepare_constructor_kwargs` → `from_option_list` → `parse_config_file` → `get_value_for`) is the
-documented one — command line, else most specific matching override of the main file, else its top
-level, else the same in the extended files in inclusion order, else the default; concatenation in
-that order for string-list options — provided the input lies outside the three exception classes
-`lostPriority`, `concatDefaultTwice`, `pathListNoConcat`. -/
+/-- **C18 value part (all stacks of any depth, all module paths, all command lines).** For a valid
+stack of chained configuration files, the value the model computes (`prepare_constructor_kwargs` →
+`from_option_list` → `parse_config_file` → `get_value_for`) is the documented one — command line,
+else most specific matching override of the main file, else its top level, else the same in the
+extended files in inclusion order, else the default; concatenation in that order for string-list
+options; `disable_all` read as "every unmentioned error code is `false` in this section" — for
+every boolean, integer and string-list option. The only exception class left is
+`pathListNoConcat`. Hypotheses other than the class: the registry is well-formed (`decide`d for the
+live one), the option is registered, command-line names are distinct, the stack is valid for the
+spec and its tables have distinct keys (TOML). -/
 theorem lookup_precedence_partial (reg : Registry) (fs : FS) (main : String) (cli : List (String × Val))
     (d : OptDecl) (mod : List String) (stack : List Table)
     (hreg : reg.wf = true) (hd : reg.find d.name = some d) (hcli : (cli.map (·.1)).Nodup)
     (hstack : specStack fs (fs.length + 1) main [] = some stack)
     (hvalid : stack.all (specValidBody reg) = true) (hkeys : stack.all tableNodup = true)
-    (hD1 : D18_lostPriority d mod stack = false) (hD2 : D18_concatDefaultTwice d = false)
-    (hD3 : D18_pathListNoConcat d = false) :
+    (hD : D18_pathListNoConcat d = false) :
     effective reg fs (fs.length + 1) main cli d mod = .ok (specValue d cli stack mod) := by
   have ok := regOK_of_wf hreg hd
   have hb : ∀ b ∈ stack, BodyOK reg b := fun b hb =>
@@ -133,7 +137,7 @@ theorem lookup_precedence_partial (reg : Registry) (fs : FS) (main : String) (cl
   have hl := (specStack_linked fs _ _ _ _ hstack).1
   unfold effective
   rw [hparse]
-  show Except.ok (getValueFor d (cliInsts cli ++ chainPure reg stack) mod) = _
+  show Except.ok (getValueFor d (cliInsts cli ++ chainPure reg 0 stack) mod) = _
   congr 1
   unfold getValueFor specValue
   cases hk : d.kind with
@@ -142,55 +146,29 @@ theorem lookup_precedence_partial (reg : Registry) (fs : FS) (main : String) (cl
       cases h : d.isCode with
       | false => rfl
       | true => have := ok.codeBool h; rw [hk] at this; cases this
-    have hdef : d.dflt.asStrs = [] := by
-      simp only [D18_concatDefaultTwice, hk, beq_self_eq_true, Bool.true_and, Bool.not_eq_false',
-        List.isEmpty_iff] at hD2
-      simpa using hD2
     simp only [beq_self_eq_true, if_true]
-    simp only [D18_lostPriority, hk, beq_self_eq_true, if_true] at hD1
-    exact concat_eq_spec ok hcli hb hl hD1 hc hdef
-  | pathSeq => simp [D18_pathListNoConcat, hk] at hD3
-  | bool =>
-    simp [D18_lostPriority, hk] at hD1
-    simpa using first_eq_spec_tight ok hcli hb hl hD1
-  | int =>
-    simp [D18_lostPriority, hk] at hD1
-    simpa using first_eq_spec_tight ok hcli hb hl hD1
-  | other =>
-    simp [D18_lostPriority, hk] at hD1
-    simpa using first_eq_spec_tight ok hcli hb hl hD1
-
-/-- **Without `extend_config` the class `lostPriority` is empty**: for a single valid file (any
-overrides, any command line, any module path) the documented precedence holds for every boolean,
-integer and empty-default string-list option. -/
-theorem lookup_precedence_single_file (reg : Registry) (fs : FS) (main : String) (cli : List (String × Val))
-    (d : OptDecl) (mod : List String) (body : Table)
-    (hreg : reg.wf = true) (hd : reg.find d.name = some d) (hcli : (cli.map (·.1)).Nodup)
-    (hstack : specStack fs (fs.length + 1) main [] = some [body])
-    (hvalid : specValidBody reg body = true) (hkeys : tableNodup body = true)
-    (hD2 : D18_concatDefaultTwice d = false) (hD3 : D18_pathListNoConcat d = false) :
-    effective reg fs (fs.length + 1) main cli d mod = .ok (specValue d cli [body] mod) :=
-  lookup_precedence_partial reg fs main cli d mod [body] hreg hd hcli hstack (by simp [hvalid])
-    (by simp [hkeys]) (by simp [D18_lostPriority, D18_lostPriorityOrder, D18_lostPriorityFirst, maxNat]) hD2 hD3
+    exact concat_eq_spec ok hcli hb hl hc
+  | pathSeq => simp [D18_pathListNoConcat, hk] at hD
+  | bool => simpa using first_eq_spec ok hcli hb hl
+  | int => simpa using first_eq_spec ok hcli hb hl
+  | other => simpa using first_eq_spec ok hcli hb hl
 
 /-- The same, read through `specEffective` (the function the driver prints). -/
 theorem lookup_precedence_specEffective_partial (reg : Registry) (fs : FS) (main : String)
     (cli : List (String × Val)) (d : OptDecl) (mod : List String) (stack : List Table) (v : Val)
     (hreg : reg.wf = true) (hd : reg.find d.name = some d) (hcli : (cli.map (·.1)).Nodup)
     (hstack : specStack fs (fs.length + 1) main [] = some stack) (hkeys : stack.all tableNodup = true)
-    (hspec : specEffective reg fs main cli d mod = some v)
-    (hD1 : D18_lostPriority d mod stack = false) (hD2 : D18_concatDefaultTwice d = false)
-    (hD3 : D18_pathListNoConcat d = false) :
+    (hspec : specEffective reg fs main cli d mod = some v) (hD : D18_pathListNoConcat d = false) :
     effective reg fs (fs.length + 1) main cli d mod = .ok v := by
   unfold specEffective at hspec
   rw [hstack] at hspec
   by_cases hvalid : stack.all (specValidBody reg) = true
   · simp only [hvalid, if_true, Option.some.injEq] at hspec
     rw [← hspec]
-    exact lookup_precedence_partial reg fs main cli d mod stack hreg hd hcli hstack hvalid hkeys hD1 hD2 hD3
+    exact lookup_precedence_partial reg fs main cli d mod stack hreg hd hcli hstack hvalid hkeys hD
   · simp [hvalid] at hspec
 
-/-! ### Witnesses: the full statement is false on the unchanged code, one per class -/
+/-! ### The remaining class and its witness -/
 
 /-- A small registry: an integer, a string-list (non-empty default), a path-list, an error code. -/
 def wReg : Registry :=
@@ -200,6 +178,7 @@ def wReg : Registry :=
 def wX : OptDecl := ⟨"x", .int, .int 0, false⟩
 def wL : OptDecl := ⟨"l", .strSeq, .strs ["d"], false⟩
 def wP : OptDecl := ⟨"p", .pathSeq, .paths [], false⟩
+def wC : OptDecl := ⟨"c", .bool, .bool true, true⟩
 
 /-- `m.toml`: `x = 1`, `extend_config = "e.toml"`;  `e.toml`: `[[overrides]] module = "a"`, `x = 2`. -/
 def wFS1 : FS :=
@@ -210,19 +189,6 @@ def wFS1 : FS :=
 def wFS2 : FS :=
   [("m", [("p", .arr [.str "u"]), ("extend_config", .str "e")]), ("e", [("p", .arr [.str "v"])])]
 
-/-- Class `lostPriority`: the extended file's override for `a` beats the main file's top-level
-value for module `a` (model: 2, documented: 1). -/
-theorem lostPriority_witness :
-    effective wReg wFS1 3 "m" [] wX ["a"] = .ok (.int 2) ∧
-    specEffective wReg wFS1 "m" [] wX ["a"] = some (.int 1) ∧
-    (specStack wFS1 3 "m" []).map (D18_lostPriority wX ["a"]) = some true := by decide
-
-/-- Class `concatDefaultTwice`: the default of a concatenated option is appended twice. -/
-theorem concatDefaultTwice_witness :
-    effective wReg [("m", [])] 2 "m" [] wL [] = .ok (.strs ["d", "d"]) ∧
-    specEffective wReg [("m", [])] "m" [] wL [] = some (.strs ["d"]) ∧
-    D18_concatDefaultTwice wL = true := by decide
-
 /-- Class `pathListNoConcat`: a path-list option takes the first applicable instance only. -/
 theorem pathListNoConcat_witness :
     effective wReg wFS2 3 "m" [] wP [] = .ok (.paths ["u"]) ∧
@@ -232,12 +198,40 @@ theorem pathListNoConcat_witness :
 /-- Hence the full statement is false of the model (and, by the correspondence run, of pyanalyze). -/
 theorem lookup_precedence_full_false : ¬ lookup_precedence_full := by
   intro h
-  have := h wReg wFS1 "m" [] wX ["a"]
-    [[("x", .int 1), ("extend_config", .str "e")],
-     [("overrides", .arr [.tbl [("module", .str "a"), ("x", .int 2)]])]]
+  have := h wReg wFS2 "m" [] wP []
+    [[("p", .arr [.str "u"]), ("extend_config", .str "e")], [("p", .arr [.str "v"])]]
     (by decide) (by decide) (by decide) rfl (by decide) (by decide)
-  rw [show wFS1.length + 1 = 3 from rfl, lostPriority_witness.1] at this
+  rw [show wFS2.length + 1 = 3 from rfl, pathListNoConcat_witness.1] at this
   revert this; decide
+
+/-! ### Regression: the witnesses of the four repaired classes now show the documented behaviour -/
+
+/-- Former class `lostPriority` (fixed by 67f91cf): the extended file's override for `a` no longer
+beats the main file's top-level value (documented and computed: 1). -/
+theorem lostPriority_regression :
+    effective wReg wFS1 3 "m" [] wX ["a"] = .ok (.int 1) ∧
+    specEffective wReg wFS1 "m" [] wX ["a"] = some (.int 1) := by decide
+
+/-- Former class `lostPriority`, second shape: `extend_config` written *before* the key — the main
+file's value still wins (it used to lose the tie). -/
+theorem lostPriority_regression_extend_first :
+    effective wReg [("m", [("extend_config", .str "e"), ("x", .int 1)]), ("e", [("x", .int 2)])] 3 "m" [] wX []
+      = .ok (.int 1) := by decide
+
+/-- Former class `concatDefaultTwice` (fixed by 4427783): the default is contributed once. -/
+theorem concatDefaultTwice_regression :
+    effective wReg [("m", [])] 2 "m" [] wL [] = .ok (.strs ["d"]) ∧
+    specEffective wReg [("m", [])] "m" [] wL [] = some (.strs ["d"]) := by decide
+
+/-- Former class `boolAsInt` (fixed by 7e56ba6): `x = true` for the integer option `x` is rejected. -/
+theorem boolAsInt_regression :
+    effective wReg [("m", [("x", .bool true)])] 2 "m" [] wX [] = .error (.badValue "x") ∧
+    specEffective wReg [("m", [("x", .bool true)])] "m" [] wX [] = none := by decide
+
+/-- Former class `disableAllNotBool` (fixed by df9545b): `disable_all = "false"` is rejected. -/
+theorem disableAllNotBool_regression :
+    effective wReg [("m", [("disable_all", .str "false")])] 2 "m" [] wC [] = .error .disableNotBool ∧
+    specEffective wReg [("m", [("disable_all", .str "false")])] "m" [] wC [] = none := by decide
 
 /-! ## 4. Rejection of bad input -/
 
@@ -255,7 +249,8 @@ theorem unreachable_or_recursive_rejected (reg : Registry) (fs : FS) (fuel : Nat
 /-- **Everything the code checks is really rejected (full strength).** If some file of the chain
 fails the checks `_parse_config_section` makes (`weakValidBody`: unknown key, `module` at top
 level, non-string `extend_config`, `overrides` not a list of tables with a string `module`, nested
-`overrides`, a value its option class does not accept), `parse_config_file` raises. -/
+`overrides`, non-boolean `disable_all`, a value its option class does not accept),
+`parse_config_file` raises. -/
 theorem checked_input_rejected (reg : Registry) (fs : FS) (fuel : Nat) (main : String) (stack : List Table)
     (hs : specStack fs fuel main [] = some stack) (hbad : stack.all (weakValidBody reg) = false) :
     ∃ e, parseFile reg fs fuel main 0 [] = .error e := by
@@ -267,22 +262,34 @@ theorem checked_input_rejected (reg : Registry) (fs : FS) (fuel : Nat) (main : S
     have : stack.all (weakValidBody reg) = true := List.all_eq_true.2 hw
     rw [this] at hbad; cases hbad
 
-/-- The full statement of the rejection part (not asserted, see the witnesses): whenever the spec
-rejects the configuration — the chain is broken/recursive or some table is not valid
-(`specValidBody`: unknown key, wrong value type, nested overrides, …) — the parser raises. -/
-def bad_config_rejected_full : Prop :=
-  ∀ (reg : Registry) (fs : FS) (main : String),
-    (∀ stack, specStack fs (fs.length + 1) main [] = some stack → stack.all (specValidBody reg) = false) →
-    ∃ e, parseFile reg fs (fs.length + 1) main 0 [] = .error e
+/-- **C18 rejection part, full strength for the four kinds of bad input the property names
+(all stacks of any depth, no further hypothesis).** If inclusion is recursive (or a file is
+missing / `extend_config` is not a string: `specStack … = none`), or some file of the chain has —
+at top level or in a table of an `overrides` array — an unknown key, a wrongly typed value (of an
+option, of `disable_all`, or an `overrides` that is not an array of tables) or a nested `overrides`
+(`namedDefect`), then `parse_config_file` raises a configuration error. -/
+theorem bad_config_rejected (reg : Registry) (fs : FS) (fuel : Nat) (main : String)
+    (hbad : specStack fs fuel main [] = none ∨
+      ∃ stack, specStack fs fuel main [] = some stack ∧ ∃ b ∈ stack, namedDefect reg b = true) :
+    ∃ e, parseFile reg fs fuel main 0 [] = .error e := by
+  rcases hbad with h | ⟨stack, hs, b, hb, hd⟩
+  · exact unreachable_or_recursive_rejected reg fs fuel main h
+  · apply checked_input_rejected reg fs fuel main stack hs
+    cases hall : stack.all (weakValidBody reg) with
+    | false => rfl
+    | true =>
+      have := (List.all_eq_true.1 hall) b hb
+      rw [weak_false_of_namedDefect hd] at this; cases this
 
-/-- **C18 rejection part, partial (all stacks of any depth).** A configuration the spec rejects is
-rejected by the parser, provided the stack lies outside the classes `boolAsInt` and
-`disableAllNotBool`, no override table contains `extend_config` (outside the property's
-quantifier) and all tables have distinct keys (guaranteed by TOML). -/
-theorem bad_config_rejected_partial (reg : Registry) (fs : FS) (fuel : Nat) (main : String)
+/-- **Every configuration the spec rejects is rejected** — the converse of `valid_config_accepted`.
+Two domain hypotheses remain, neither about a defect: no override table contains `extend_config`
+(pyanalyze accepts the key there; the property's quantifier has files "each with top-level settings
+and overrides" and the spec does not give it a meaning), and tables have distinct keys (TOML
+guarantees it; without it a second, non-string `module` entry of an override would be invisible to
+the parser). -/
+theorem spec_invalid_rejected (reg : Registry) (fs : FS) (fuel : Nat) (main : String)
     (hbad : ∀ stack, specStack fs fuel main [] = some stack → stack.all (specValidBody reg) = false)
-    (hD : ∀ stack, specStack fs fuel main [] = some stack →
-      D18_boolAsInt reg stack = false ∧ D18_disableAllNotBool stack = false ∧
+    (hdom : ∀ stack, specStack fs fuel main [] = some stack →
       extendInOverride stack = false ∧ stack.all tableNodup = true) :
     ∃ e, parseFile reg fs fuel main 0 [] = .error e := by
   cases hp : parseFile reg fs fuel main 0 [] with
@@ -290,67 +297,43 @@ theorem bad_config_rejected_partial (reg : Registry) (fs : FS) (fuel : Nat) (mai
   | ok out =>
     exfalso
     obtain ⟨stack, hs, hw⟩ := parseFile_ok_inv reg fs fuel main 0 [] out hp
-    obtain ⟨h1, h2, h3, h4⟩ := hD stack hs
-    have hclean := bodyClean_of_stack h1 h2 h3 h4
+    obtain ⟨h3, h4⟩ := hdom stack hs
+    have hclean := bodyClean_of_stack h3 h4
     have : stack.all (specValidBody reg) = true :=
       List.all_eq_true.2 (fun b hb => specValid_of_weak (hw b hb) (hclean b hb))
     rw [hbad stack hs] at this; cases this
 
-def wC : OptDecl := ⟨"c", .bool, .bool true, true⟩
-
-/-- Class `boolAsInt`: `x = true` for the integer option `x` is accepted (value `True`). -/
-theorem boolAsInt_witness :
-    effective wReg [("m", [("x", .bool true)])] 2 "m" [] wX [] = .ok (.bool true) ∧
-    specEffective wReg [("m", [("x", .bool true)])] "m" [] wX [] = none ∧
-    D18_boolAsInt wReg [[("x", .bool true)]] = true := by decide
-
-/-- Class `disableAllNotBool`: `disable_all = "false"` is accepted and disables error code `c`
-(default `true`). -/
-theorem disableAllNotBool_witness :
-    effective wReg [("m", [("disable_all", .str "false")])] 2 "m" [] wC [] = .ok (.bool false) ∧
-    specEffective wReg [("m", [("disable_all", .str "false")])] "m" [] wC [] = none ∧
-    D18_disableAllNotBool [[("disable_all", .str "false")]] = true := by decide
-
-theorem bad_config_rejected_full_false : ¬ bad_config_rejected_full := by
-  intro h
-  obtain ⟨e, he⟩ := h wReg [("m", [("x", .bool true)])] "m" (by
-    intro stack hs
-    have : stack = [[("x", .bool true)]] := by
-      have h' : specStack [("m", [("x", TV.bool true)])] 2 "m" [] = some [[("x", .bool true)]] := rfl
-      rw [show ([("m", [("x", TV.bool true)])] : FS).length + 1 = 2 from rfl, h'] at hs
-      exact (Option.some.inj hs).symm
-    subst this; decide)
-  rw [show ([("m", [("x", TV.bool true)])] : FS).length + 1 = 2 from rfl] at he
-  have hok : parseFile wReg [("m", [("x", TV.bool true)])] 2 "m" 0 [] = .ok [fileInst "x" (.bool true) []] := by
-    decide
-  rw [hok] at he; cases he
-
-/-! ### Non-vacuity: the hypotheses of the partial theorem are met by non-trivial inputs -/
+/-! ### Non-vacuity: the hypotheses are met by non-trivial inputs -/
 
 /-- The regenerated live registry is well-formed. -/
 theorem liveRegistry_wf : liveRegistry.wf = true := by decide +kernel
 
-/-- `m.toml`: `x = 1`, `c = true`, `disable_all = true`, override `a.b`: `x = 3`,
-`extend_config = "e.toml"` written last;  `e.toml`: `x = 2`, `l = ["s"]`. -/
+/-- `m.toml`: `extend_config = "e.toml"` written first, `x = 1`, `c = true`, `disable_all = true`,
+override `a.b`: `x = 3`;  `e.toml`: `x = 2`, `l = ["s"]`, override `a`: `x = 4`, `c = false`. -/
 def exFS : FS :=
-  [("m", [("x", .int 1), ("c", .bool true), ("disable_all", .bool true),
-          ("overrides", .arr [.tbl [("module", .str "a.b"), ("x", .int 3)]]), ("extend_config", .str "e")]),
-   ("e", [("x", .int 2), ("l", .arr [.str "s"])])]
+  [("m", [("extend_config", .str "e"), ("x", .int 1), ("c", .bool true), ("disable_all", .bool true),
+          ("overrides", .arr [.tbl [("module", .str "a.b"), ("x", .int 3)]])]),
+   ("e", [("x", .int 2), ("l", .arr [.str "s"]),
+          ("overrides", .arr [.tbl [("module", .str "a"), ("x", .int 4), ("c", .bool false)]])])]
 
 example : wReg.wf = true := by decide
 example : (specStack exFS 3 "m" []).map (fun st => st.all (specValidBody wReg) && st.all tableNodup) = some true := by decide
-example : (specStack exFS 3 "m" []).map (D18_lostPriority wX ["a", "b", "c"]) = some false := by decide
-example : D18_concatDefaultTwice wX = false ∧ D18_pathListNoConcat wX = false := by decide
+example : D18_pathListNoConcat wX = false ∧ D18_pathListNoConcat wL = false ∧ D18_pathListNoConcat wC = false := by decide
 example : effective wReg exFS 3 "m" [] wX ["a", "b", "c"] = .ok (.int 3) := by decide
-example : effective wReg exFS 3 "m" [] wX ["b"] = .ok (.int 1) := by decide
+example : effective wReg exFS 3 "m" [] wX ["a", "c"] = .ok (.int 1) := by decide   -- main top level beats e's override `a`
+example : effective wReg exFS 3 "m" [] wC ["a"] = .ok (.bool true) := by decide
+example : effective wReg exFS 3 "m" [] wL ["a"] = .ok (.strs ["s", "d"]) := by decide
 example : effective wReg exFS 3 "m" [("x", .int 9)] wX ["a", "b"] = .ok (.int 9) := by decide
 example : ([("x", Val.int 9)].map (·.1)).Nodup := by decide
 
-/-! Rejection: unknown key, nested overrides, recursive inclusion, wrong type. -/
+/-! Rejection: unknown key, nested overrides, recursive inclusion, wrong types. -/
 example : specStack [("m", [("nonsense", .int 1)])] 2 "m" [] = some [[("nonsense", .int 1)]] := rfl
+example : namedDefect wReg [("nonsense", .int 1)] = true := by decide
+example : namedDefect wReg [("overrides", .arr [.tbl [("module", .str "a"), ("overrides", .arr [])]])] = true := by decide
+example : namedDefect wReg [("x", .bool true)] = true ∧ namedDefect wReg [("disable_all", .str "false")] = true := by decide
+example : namedDefect wReg [("x", .int 1), ("overrides", .arr [.tbl [("module", .str "a"), ("c", .bool false)]])] = false := by decide
 example : [[("nonsense", TV.int 1)]].all (specValidBody wReg) = false := by decide
-example : D18_boolAsInt wReg [[("nonsense", .int 1)]] = false ∧ D18_disableAllNotBool [[("nonsense", .int 1)]] = false ∧
-    extendInOverride [[("nonsense", .int 1)]] = false ∧ [[("nonsense", TV.int 1)]].all tableNodup = true := by decide
+example : extendInOverride [[("nonsense", .int 1)]] = false ∧ [[("nonsense", TV.int 1)]].all tableNodup = true := by decide
 example : parseFile wReg [("m", [("nonsense", .int 1)])] 2 "m" 0 [] = .error (.unknownKey "nonsense") := by decide
 example : parseFile wReg [("m", [("overrides", .arr [.tbl [("module", .str "a"), ("overrides", .arr [])]])])] 2 "m" 0 []
     = .error .nestedOverrides := by decide
@@ -358,4 +341,4 @@ example : parseFile wReg [("m", [("extend_config", .str "e")]), ("e", [("extend_
     = .error .recursive := by decide
 example : parseFile wReg [("m", [("c", .int 1)])] 2 "m" 0 [] = .error (.badValue "c") := by decide
 
-end Pya
+end Pya.C18
